@@ -132,7 +132,7 @@ theorem plan_names_recorded_removals (asWas : Bool) (later : List Name) (es : Li
   mem_plan asWas later es names h x hx
 
 /-- **The verifier keeps the trash a later check needs** (as repaired, D-28;
-    fixes/d28-verifier-removed-recreated-removed.diff).  Files are named after their contents: a
+    /repo fix 9994d2c).  Files are named after their contents: a
     compaction can write a removed file again, a later edit can remove it again, and `trash/` then
     holds one copy for both removals, which the checks of the fragments that add it back and remove
     it again read.  Whenever a pass logs an intent for fragment `n`, no name in it is the trash
